@@ -245,11 +245,14 @@ def aliasAndReset (buf : Bytes) (oldMark canonical : Nat) : Bytes :=
        b!"reset " ++ (dropLast hdr).drop 7 ++ b!"\nfrom :" ++ natToDec canonical ++ b!"\n\n"
      else [])
 
-/-- prune: record (original id, none); alias the mark to the canonical first parent if that was emitted -/
-def recordDropped (s : FState) (e : CommitEnd) : FState :=
-  let s := match s.commitOid with
-    | some old => { s with pairs := (old, none) :: s.pairs, commitOid := none }
-    | none => s
+/-- prune, first half: record (original id, none) -/
+def recordZeroPair (s : FState) : FState :=
+  match s.commitOid with
+  | some old => { s with pairs := (old, none) :: s.pairs, commitOid := none }
+  | none => s
+
+/-- prune, second half: alias the mark to the canonical first parent if that was emitted -/
+def aliasDropped (s : FState) (e : CommitEnd) : FState :=
   match s.commitMark, e.firstParent with
   | some oldMark, some parentMark =>
     let canonical := resolveCanonical s.alias parentMark
@@ -257,6 +260,9 @@ def recordDropped (s : FState) (e : CommitEnd) : FState :=
       { s with alias := (oldMark, canonical) :: s.alias }.emit (aliasAndReset e.buf oldMark canonical)
     else s
   | _, _ => s
+
+/-- prune: record (original id, none); alias the mark to the canonical first parent if that was emitted -/
+def recordDropped (s : FState) (e : CommitEnd) : FState := aliasDropped (recordZeroPair s) e
 
 /-- `CommitAction::Ended` in the caller: the commit's own mark counts as emitted, the buffer is closed -/
 def closeCommitState (s : FState) : FState :=
@@ -412,20 +418,22 @@ def inlinePayload (o : FOpts) (s : FState) (line : Bytes) (inp : Bytes) : Outcom
         .cont { s.push (dataHeader p.length ++ p) with hasChanges := true } inp
   | _, _ => .fail
 
+/-- does the `M` line name a blob that was stripped (by mark: oversize/listed blob seen earlier; by id: listed, or oversize under --no-data)? -/
+def mShouldDrop (o : FOpts) (s : FState) (f : MFields) : Bool :=
+  match f.id with
+  | c :: digits =>
+    if c == B.colon then
+      (match satDigits digits with | some n => s.oversizeMarks.contains n | none => false)
+    else if is40Hex f.id then stripContains o.stripIds f.id || (o.maxBlob.isSome && o.shaOversize f.id)
+    else false
+  | [] => false
+
 /-- rule 11b, `M` line naming a stripped blob: the state after the deletion that replaces it -/
 def mDropOf (o : FOpts) (s : FState) (line : Bytes) : Option FState :=
   if startsWith line b!"M " then
     let f := mFields line
     let s := if f.id == b!"inline" then { s with pendingInline := some (s.segs.length, stripLf f.pathRaw) } else s
-    let drop :=
-      match f.id with
-      | c :: digits =>
-        if c == B.colon then
-          (match satDigits digits with | some n => s.oversizeMarks.contains n | none => false)
-        else if is40Hex f.id then stripContains o.stripIds f.id || (o.maxBlob.isSome && o.shaOversize f.id)
-        else false
-      | [] => false
-    if drop then
+    if mShouldDrop o s f then
       match handleFileChangeLine o.path (b!"D " ++ f.pathRaw) with
       | some l => some { s.push l with hasChanges := true }
       | none => some s
@@ -451,6 +459,39 @@ def stepCommit (o : FOpts) (s : FState) (line : Bytes) (inp : Bytes) : Outcome :
            then endCommit o s else s
   if s.inCommit then stepInCommit o s line inp else tailRules o s line inp
 
+/-- rule 7, second half: a pending lightweight-tag reset that is not followed by `from` is forwarded bare -/
+def flushPendingTagReset (s : FState) : FState :=
+  match s.pendingTagReset with
+  | some r => { s with pendingTagReset := none }.emit (b!"reset " ++ r ++ [B.lf])
+  | none => s
+
+/-- rule 8: a pending branch reset captures the target of the `from` line that follows it immediately -/
+def captureBranchReset (s : FState) (isFrom : Bool) (line : Bytes) : FState :=
+  match s.pendingBranchReset with
+  | some r =>
+    let s := { s with pendingBranchReset := none }
+    if !s.inCommit && isFrom then
+      let target := stripLf (line.drop 5)
+      if target.isEmpty then s else { s with branchResetTargets := (r, target) :: s.branchResetTargets }
+    else s
+  | none => s
+
+/-- rule 10: a `commit <ref>` header opens a commit (the ref renamed) -/
+def openCommit (o : FOpts) (s : FState) (line : Bytes) : FState :=
+  let name := stripLf (line.drop 7)
+  let (hdr, s) := match renameRef o.refs name with
+    | some new_ => (b!"commit " ++ new_ ++ [B.lf], { s with refRenames := setInsert (name, new_) s.refRenames })
+    | none => (line, s)
+  let final := stripLf (hdr.drop 7)
+  let s := if startsWith final refsHeads then { s with updatedBranchRefs := bsetInsert final s.updatedBranchRefs } else s
+  { s with inCommit := true, segs := [.raw hdr], hasChanges := false, commitMark := none, firstParentMark := none }
+
+/-- rules 9–11 -/
+def stepObjects (o : FOpts) (s : FState) (line : Bytes) (inp : Bytes) (fuel : Nat) : Outcome :=
+  if startsWith line b!"tag " then tagBlock o s (stripLf (line.drop 4)) fuel [] inp
+  else if startsWith line b!"commit " then .cont (openCommit o s line) inp
+  else stepCommit o s line inp
+
 /-- rules 7–10, then `stepCommit` -/
 def stepMain (o : FOpts) (s : FState) (line : Bytes) (inp : Bytes) (fuel : Nat) : Outcome :=
   -- rule 7: a pending lightweight-tag reset captures the `from` line; a bare reset is forwarded
@@ -459,32 +500,7 @@ def stepMain (o : FOpts) (s : FState) (line : Bytes) (inp : Bytes) (fuel : Nat) 
          | some r => if isFrom then some r else none
          | none => none) with
   | some r => .cont { s with pendingTagReset := none, bufferedTagResets := (r, line) :: s.bufferedTagResets } inp
-  | none =>
-  let s := match s.pendingTagReset with
-    | some r => { s with pendingTagReset := none }.emit (b!"reset " ++ r ++ [B.lf])
-    | none => s
-  -- rule 8
-  let s := match s.pendingBranchReset with
-    | some r =>
-      let s := { s with pendingBranchReset := none }
-      if !s.inCommit && isFrom then
-        let target := stripLf (line.drop 5)
-        if target.isEmpty then s else { s with branchResetTargets := (r, target) :: s.branchResetTargets }
-      else s
-    | none => s
-  -- rule 9
-  if startsWith line b!"tag " then tagBlock o s (stripLf (line.drop 4)) fuel [] inp
-  -- rule 10
-  else if startsWith line b!"commit " then
-    let name := stripLf (line.drop 7)
-    let (hdr, s) := match renameRef o.refs name with
-      | some new_ => (b!"commit " ++ new_ ++ [B.lf], { s with refRenames := setInsert (name, new_) s.refRenames })
-      | none => (line, s)
-    let final := stripLf (hdr.drop 7)
-    let s := if startsWith final refsHeads then { s with updatedBranchRefs := bsetInsert final s.updatedBranchRefs } else s
-    .cont { s with inCommit := true, segs := [.raw hdr], hasChanges := false, commitMark := none,
-                   firstParentMark := none } inp
-  else stepCommit o s line inp
+  | none => stepObjects o (captureBranchReset (flushPendingTagReset s) isFrom line) line inp fuel
 
 def step (o : FOpts) (s : FState) (line : Bytes) (inp : Bytes) (fuel : Nat) : Outcome :=
   -- rule 2
